@@ -1188,6 +1188,14 @@ func (p *Parser) parseSimpleStmt(forIn bool) Stmt {
 					value = &Ident{Name: "_", NamePos: x[1].Pos()}
 				}
 				//TODO: no more than 2 idents
+			default:
+				pos := p.pos
+				if len(x) > 0 {
+					pos = x[0].Pos()
+				}
+				p.error(pos, "expected at most 2 identifiers in for-in")
+				key = &Ident{Name: "_", NamePos: pos}
+				value = &Ident{Name: "_", NamePos: pos}
 			}
 			return &ForInStmt{
 				Key:      key,
